@@ -58,6 +58,31 @@ def ch_strip(s: Str, c: Str) -> Str:
     return ch_rstrip(ch_lstrip(s, c), c)
 
 
+@spec
+def is_ws_char(c: Str) -> Bool:
+    # the ASCII whitespace characters str.strip() removes (A-PY: the non-ASCII Unicode spaces are not modelled)
+    return c == ' ' or c == '\t' or c == '\n' or c == '\r' or c == '\x0b' or c == '\x0c'
+
+
+@spec
+def ws_lstrip(s: Str) -> Str:
+    if len(s) > 0 and is_ws_char(s[0]):
+        return ws_lstrip(s[1:])
+    return s
+
+
+@spec
+def ws_rstrip(s: Str) -> Str:
+    if len(s) > 0 and is_ws_char(s[-1]):
+        return ws_rstrip(s[:-1])
+    return s
+
+
+@spec
+def ws_strip(s: Str) -> Str:
+    return ws_rstrip(ws_lstrip(s))
+
+
 # ---------------------------------------------------------------- LIKE (C17)
 @spec(opaque=True)
 def re_escape(s: Str) -> Str:
